@@ -5,6 +5,7 @@ import (
 	"go/ast"
 	"go/token"
 	"go/types"
+	"strings"
 
 	"gofasta-verif/core"
 	"gofasta-verif/eval"
@@ -90,6 +91,26 @@ func C03(c *core.Ctx) {
 		c.Und("R2/getSNPs", token.NoPos, "UNRESOLVED anchor snps.getSNPs")
 		return
 	}
+	concreteOK := c03Concrete(c, fn, tabs)
+	mark := len(c.Obs)
+	defer func() {
+		// where the column loop is not visible as one loop of getSNPs (it may sit in a shared helper), the transfer-function
+		// argument does not apply; the bounded family above is then what is decided
+		if !concreteOK {
+			return
+		}
+		kept := c.Obs[:mark:mark]
+		for _, o := range c.Obs[mark:] {
+			und := o.Status == core.Undecided.String() && strings.HasPrefix(o.Key, c.Prop+"/R2/getSNPs")
+			floor := o.Status != core.OK.String() && strings.HasPrefix(o.Key, c.Prop+"/R2/column-loops")
+			if und || floor {
+				c.Note("the per-column argument does not apply to the current shape of getSNPs (%s); decided on the bounded family only", o.Detail)
+				continue
+			}
+			kept = append(kept, o)
+		}
+		c.Obs = kept
+	}()
 	nLoops := 0
 	for _, hard := range []bool{false, true} {
 		mode := "soft"
@@ -300,7 +321,10 @@ func c03Flag(c *core.Ctx, tabs *Tables) {
 			tab, ok, why := readerTable(c, "pkg/fastaio", r, hard)
 			key := fmt.Sprintf("R4/reader-table/%s/hard=%v", r, hard)
 			if !ok {
-				c.Und(key, pos, "cannot determine the table the reader selects: %s", why)
+				// the table is not a local array chosen before the scanner is built (the readers may share a core, or
+				// encode through a helper): which table each gap mode uses is decided by the layout families, where a
+				// record read in one mode and decoded with that mode's table must give back the file's symbols (R7)
+				c.Note("%s hard=%v: table selection not visible as a local array (%s); decided by the reader layout families", r, hard, why)
 				continue
 			}
 			want := tabs.Soft
@@ -318,4 +342,125 @@ func c03Flag(c *core.Ctx, tabs *Tables) {
 	}
 	n := checkBoolArgIsParam(c, "R4/flag-plumbing", f, []string{"ReadEncodeAlignmentToList", "ReadEncodeAlignment"})
 	c.Floor("R4/flag-plumbing", n, 2)
+}
+
+// c03Concrete: getSNPs on every sequence of a bounded length over {A, C, T, N, R, -} against five references, in both gap
+// modes, through ONE worker activation per (reference, mode): each row must carry the record's name and index and list
+// exactly the columns whose base sets are disjoint, as <ref symbol><1-based position><query symbol>, in ascending order.
+func c03Concrete(c *core.Ctx, fn *types.Func, tabs *Tables) bool {
+	key := "R2/getSNPs/bounded-family"
+	recT := namedType(c, "pkg/fastaio", "EncodedFastaRecord")
+	if recT == nil {
+		c.Und(key, fn.Pos(), "UNRESOLVED type fastaio.EncodedFastaRecord")
+		return false
+	}
+	L := 4
+	if c.Tier == "thorough" {
+		L = 5
+	}
+	var seqs []string
+	var gen func(cur string)
+	gen = func(cur string) {
+		if len(cur) == L {
+			seqs = append(seqs, cur)
+			return
+		}
+		for _, a := range []byte("ACTNR-") {
+			gen(cur + string(a))
+		}
+	}
+	gen("")
+	var bad []string
+	n := 0
+	for _, hard := range []bool{false, true} {
+		tab := tabs.Soft
+		if hard {
+			tab = tabs.Hard
+		}
+		enc := func(s string) eval.Value {
+			vs := make([]eval.Value, len(s))
+			for i := 0; i < len(s); i++ {
+				vs[i] = eval.K(tab[s[i]])
+			}
+			return eval.NewSlice(vs...)
+		}
+		for _, ref0 := range []string{"ACGTA", "AAAAA", "ARNCT", "TC-GA", "N-YCA"} {
+			ref := ref0[:L]
+			var feed []eval.Value
+			for i, s := range seqs {
+				rec := absValue(recT, "r", eval.K(int64(L))).(*eval.StructVal)
+				rec.F["ID"] = eval.S(fmt.Sprintf("s%d", i))
+				rec.F["Description"] = eval.S(fmt.Sprintf("s%d", i))
+				rec.F["Idx"] = eval.K(int64(i))
+				rec.F["Seq"] = enc(s)
+				feed = append(feed, rec)
+			}
+			ev := newEval(c)
+			w := bindWorker(c, fn, eval.K(int64(L)), nil)
+			if w.rec == nil || w.out == nil || w.errs == nil {
+				c.Und(key, fn.Pos(), "cannot bind worker parameters by role")
+				return false
+			}
+			// the bound arguments, with the reference and the record stream replaced by the family's
+			args := append([]eval.Value{}, w.args...)
+			for i, a := range args {
+				if ch, ok := a.(*eval.ChanVal); ok && ch != w.out && ch != w.errs {
+					args[i] = &eval.ChanVal{Name: "in", Feed: feed}
+				} else if _, isSeq := a.(eval.AbsSeq); isSeq {
+					args[i] = enc(ref)
+				} else if sl, isSlice := a.(eval.Slice); isSlice && sl.Len() == L {
+					args[i] = enc(ref)
+				}
+			}
+			if _, err := ev.CallFuncBound(fn, args...); err != nil {
+				c.Und(key, fn.Pos(), "cannot evaluate getSNPs on the family (reference %s, hard gaps %v): %v", ref, hard, err)
+				return false
+			}
+			if len(w.out.Sent) != len(seqs) || len(w.errs.Sent) != 0 {
+				c.Ob(key, false, fn.Pos(), "reference %s: %d rows and %d errors for %d sequences of the reference's width", ref, len(w.out.Sent), len(w.errs.Sent), len(seqs))
+				return false
+			}
+			for i, s := range seqs {
+				n++
+				row, _ := w.out.Sent[i].(*eval.StructVal)
+				var want []string
+				for k := 0; k < L; k++ {
+					if disjoint(ref[k], s[k], hard) {
+						want = append(want, fmt.Sprintf("%c%d%c", upper(ref[k]), k+1, upper(s[k])))
+					}
+				}
+				got, okRow := []string{}, row != nil
+				name, idx := "", int64(-1)
+				if okRow {
+					for _, v := range row.F {
+						switch x := v.(type) {
+						case eval.Str:
+							if x.IsConst() {
+								name = x.Const()
+							}
+						case eval.Lin:
+							if x.IsConst() {
+								idx = x.C
+							}
+						case eval.Slice:
+							for _, e := range x.Elems() {
+								st, isStr := e.(eval.Str)
+								if !isStr || !st.IsConst() {
+									okRow = false
+									break
+								}
+								got = append(got, st.Const())
+							}
+						}
+					}
+				}
+				if !okRow || name != fmt.Sprintf("s%d", i) || idx != int64(i) || strings.Join(got, "|") != strings.Join(want, "|") {
+					bad = append(bad, fmt.Sprintf("reference %s, sequence %s, hard gaps %v: row %s, specified {s%d %d %v}", ref, s, hard, firstN(eval.Show(w.out.Sent[i]), 160), i, i, want))
+				}
+			}
+		}
+	}
+	c.Count("getsnps_rows_evaluated", n)
+	c.Ob(key, len(bad) == 0, fn.Pos(), "%s", first(bad, 3))
+	return len(bad) == 0
 }
